@@ -35,6 +35,12 @@ CHECKS = {
  "C15": dict(level="exploration", engine="E-HIST", technique="runtime monitoring: timestamp restores at/around every recorded replication time compared with the level-0 image oracle",
    text="Generated histories with and without compaction/retention; Restore(Timestamp=T) for T at, just before/after and between the recorded header timestamps of every TXID must equal image_n for an n replicated before T, never newer, exactly the last one when all L0 files exist, monotone in T, and fail before the first backup.",
    note="replication time = LTX header timestamp read back from archived files; mtimes are never touched", ref="§4 C15"),
+ "C08": dict(level="exploration", engine="E-GEN", technique="runtime monitoring: the real planner is run on enumerated/generated file sets and every answer is judged by an independent reachability oracle",
+   text="CalcRestorePlan is driven with an in-memory listing client over all file sets of <=5 files over TXIDs 1..3 at levels {0,1,2,9} with all creation-time assignments and all requests (exhaustive), plus seeded random sets up to 8 TXIDs / 14 files; each plan must be a valid chain of eligible files ending at the target, must exist whenever the oracle finds a chain, and 'latest' must report gaps.",
+   note="exhaustive only for the stated small space; the gap clause is not demanded for timestamp requests (statement is silent)", ref="§4 C08"),
+ "C20": dict(level="exploration", engine="E-LEASE", technique="runtime monitoring: request-level schedule enumeration over real s3.Leaser instances with an online belief-set invariant, plus porcupine linearizability checking of free-running histories under the race detector",
+   text="Real Leaser instances over one in-memory conditional-write store; every request blocks until the scheduler grants it. All interleavings of 2 instances x programs of <=3 operations x TTL classes are visited (exhaustive), plus random 3-client schedules and free-running histories checked with porcupine; after every request at most one live-believed holder may exist, taken-over instances must get ErrLeaseNotHeld, generations must increase.",
+   note="S3 conditional-write semantics are modelled by the in-memory store (If-Match / If-None-Match, 412/404); lease liveness is a class (+1h/-1h), never a clock reading", ref="§4 C20"),
 }
 
 # properties not (yet) claimed: id -> reason
